@@ -11,7 +11,7 @@ COQ_TARGETS = ['Props/C03.vo']
 LEVEL = 'proof'
 MANIFEST = {
     'text': "Theorems (Coq, every byte string body that does not contain the section tag, every digest function): the reader's split of a signed file returns exactly (hashed content, 'md5', digest); the bytes in front of the newline preceding [SIGNATURE] are exactly the hashed content; write(create_signature=True) returns the digest it wrote, write(create_signature=False) writes no section. The literal signature block is re-read from write_seq.py on every run. On the implementation every generated file (all four flag combinations) has its MD5 recomputed over the bytes before '\\n[SIGNATURE]' and compared with the Hash line, the return value and signature_value after write and after read; the extracted model re-parses the real files and recomputes the digest with its own MD5 (Model/Md5.v: RFC 1321 over byte lists; theorems: RFC test suite, 32 characters 0-9a-f for every content, whole-block padding, write contract with MD5 and no hypothesis on the digest).",
-    'note': "Trusted: Coq kernel; translator pattern for the signature block; MD5 itself is modelled (Model/Md5.v) and compared with the implementation's Hash on every file up to 40 kB (hashlib.md5 is the reference only above that); text-mode newlines and utf-8 encoding are runtime behaviour covered by sampling only; the theorem's hypothesis (body free of '[SIGNATURE]') is checked on every generated file.",
+    'note': "Trusted: Coq kernel; translator pattern for the signature block; MD5 itself is modelled (Model/Md5.v) and compared with the implementation's Hash on every file up to 40 kB (hashlib.md5 is the reference only above that); the encoding of the written text is runtime behaviour covered by sampling only (the digest is taken over the bytes on disk since repair 8506280); the theorem's hypothesis (body free of '[SIGNATURE]') is checked on every generated file.",
     'technique': 'Rocq/Coq proof (list/byte-string reasoning over an abstract digest, then instantiated with an executable MD5 model validated on the RFC 1321 suite) + byte-level oracle on written files',
 }
 BUDGET = {'quick': 150, 'thorough': 1500}
@@ -118,8 +118,21 @@ def one_case(ctx, rng, n, big=False):
             'follow_up_writes': follow}
     # file names with and without the .seq suffix (write() appends it when missing), definitions with non-ASCII text
     name = rng.choice(['a.seq', 'a.seq', 'scan', 'scan.v2', 'b.SEQ.seq', 'name with space.seq'])
-    if rng.random() < 0.3:
-        seq.set_definition('Name', rng.choice(['M\u00fcller \u00b5T/m 30\u00b0', 'caf\u00e9', '\u6d4b\u8bd5 seq', 'plain ascii name']))
+    if rng.random() < 0.3 or n in (1, 2, 3):
+        # also characters that str.splitlines() / universal-newline reading treat as line ends (the hashed bytes are the
+        # bytes on disk, whatever they are); n = 1: the reproducer of the defect repaired by 8506280 (carriage return)
+        seq.set_definition('Name', 'cr\rx' if n == 1 else rng.choice([
+            'M\u00fcller \u00b5T/m 30\u00b0', 'caf\u00e9', '\u6d4b\u8bd5 seq', 'plain ascii name', 'page 1\x0cpage 2', 'a\x0bb',
+            'x\x1cy', 'nel\x85x', 'ls\u2028x', 'cr\rx']))
+    timing_faulty = rng.random() < 0.12
+    if timing_faulty:
+        # a writable sequence whose check_timing() reports errors (events designed for a system without dead times,
+        # stored in a sequence whose system has them): write() only warns, the signature contract is unchanged
+        seq.system = pp.Opts(rf_dead_time=100e-6, rf_ringdown_time=30e-6, adc_dead_time=20e-6,
+                             grad_raster_time=seq.system.grad_raster_time, rf_raster_time=seq.system.rf_raster_time,
+                             adc_raster_time=seq.system.adc_raster_time, block_duration_raster=seq.system.block_duration_raster)
+        ctx.count('timing_faulty')
+    case['timing_faulty'] = timing_faulty
     case['file_name'] = name
     with tempfile.TemporaryDirectory(prefix='pvC03') as d:
         fn = os.path.join(d, name)
@@ -137,7 +150,13 @@ def one_case(ctx, rng, n, big=False):
         ctx.count('name.' + ('with_suffix' if name.endswith('.seq') else 'without_suffix'))
         data = open(fn, 'rb').read()
         s2, fresh = reader(ctx, rng, big)
-        s2.read(fn)
+        ropts = {}
+        if rng.random() < 0.3:
+            ropts['remove_duplicates'] = False
+        if rng.random() < 0.15:
+            ropts['detect_rf_use'] = True
+        case['read_options'] = ropts
+        s2.read(fn, **ropts)
         if not fresh and not sigflag:
             # the statement says nothing about what an object that already carries a signature holds after reading an
             # UNSIGNED file (the implementation keeps the old value): only the file and the return value are checked
@@ -162,7 +181,7 @@ def one_case(ctx, rng, n, big=False):
                 continue
             data2 = open(fn2, 'rb').read()
             s3, fresh3 = reader(ctx, rng)
-            s3.read(fn2)
+            s3.read(fn2, **({'remove_duplicates': False} if rng.random() < 0.3 else {}))
             if not fresh3 and not sf:
                 s3 = None
             ctx.count('follow_up.%s.%s_after_%s' % (who, 'signed' if sf else 'unsigned', 'signed' if sigflag else 'unsigned'))
